@@ -219,6 +219,9 @@ theorem guardedStore_spec (s : St) (i : IId) (x : Inst) (n : Name) (ip : PId) (v
   | none => exact Or.inl rfl
   | some q =>
     dsimp only
+    by_cases hrj : rejects s q v = true
+    · rw [if_pos hrj]; exact Or.inl rfl
+    rw [if_neg hrj]
     by_cases hf : (q.constant || q.readonly) = true
     · rw [if_pos hf]
       by_cases hr : q.readonly = true
@@ -516,6 +519,8 @@ theorem clsSet_frames (s : St) (c : CId) (n : Name) (v : Obj) :
       have hplt : p < s.heap.length := (List.getElem?_eq_some_iff.1 hq).1
       split
       · exact ⟨Frame.refl _, ConstFrame.refl _⟩
+      split
+      · exact ⟨Frame.refl _, ConstFrame.refl _⟩
       · rename_i hr
         by_cases e : owner = c
         · simp only [e, if_true]
@@ -554,6 +559,43 @@ theorem newInst_frames (s : St) (c : CId) (kw : List (Name × Obj)) :
         refine ⟨x, ?_, rfl, fun _ _ h => h, fun n ip h1 h2 => by rw [h1] at h2; cases h2⟩
         show (s.insts ++ _)[i]? = some x
         rw [List.getElem?_append_left (List.getElem?_eq_some_iff.1 hx).1]; exact hx
+
+theorem renameCore_cases (s : St) (i : IId) (v : Obj) :
+    (renameCore s i v).1 = s ∨ ∃ x, s.insts[i]? = some x ∧
+      renameCore s i v = (setInst s i { x with values := aset x.values "name" v }, .ok) := by
+  unfold renameCore
+  split
+  · exact Or.inl rfl
+  · rename_i x hx
+    split
+    · exact Or.inl rfl
+    · split
+      · exact Or.inl rfl
+      · split
+        · exact Or.inl rfl
+        · split
+          · exact Or.inl rfl
+          · exact Or.inr ⟨x, hx, rfl⟩
+
+theorem rename_frames (s : St) (i : IId) (v : Obj) (k : Obj) :
+    Frame s { (renameCore s i v).1 with nextObj := k } ∧ ConstFrame s { (renameCore s i v).1 with nextObj := k } ∧
+    Frame s (renameCore s i v).1 ∧ ConstFrame s (renameCore s i v).1 ∧ (renameCore s i v).1.classes = s.classes := by
+  have nx : ∀ t : St, Frame t { t with nextObj := k } ∧ ConstFrame t { t with nextObj := k } :=
+    fun t => frames_of (fun _ _ h => h) (fun j y hy => insts_same (s := t) j y hy)
+  rcases renameCore_cases s i v with h | ⟨x, hx, h⟩
+  · rw [h]; exact ⟨(nx s).1, (nx s).2, Frame.refl _, ConstFrame.refl _, rfl⟩
+  · rw [h]
+    obtain ⟨f, c⟩ := setInst_values_frames hx (aset x.values "name" v)
+    exact ⟨f.trans (nx _).1, c.trans (nx _).2, f, c, rfl⟩
+
+theorem genName_state (s : St) (i : IId) :
+    ∃ k, (step s (.genName i)).1 = { (renameCore s i s.nextObj).1 with nextObj := k } := by
+  simp only [step]
+  cases hr : renameCore s i s.nextObj with
+  | mk s1 r =>
+    cases r
+    case ok => exact ⟨s.nextObj + 1, rfl⟩
+    all_goals exact ⟨s1.nextObj, rfl⟩
 
 mutual
 /-- **every statement** — blocks of any nesting depth, with any exit — respects `Frame` -/
@@ -601,6 +643,22 @@ theorem frame_step : ∀ (op : Op) (s : St), Frame s (step s op).1
     · exact Frame.refl _
     · rename_i s1 ip hg
       exact (getParamCore_frames hg).1
+  | .setName i v, s => by simp only [step]; exact (rename_frames s i v 0).2.2.1
+  | .genName i, s => by
+    obtain ⟨k, hk⟩ := genName_state s i
+    rw [hk]; exact (rename_frames s i _ k).1
+  | .failingEntry i n, s => by
+    simp only [step]
+    split
+    · exact Frame.refl _
+    · split
+      · exact Frame.refl _
+      · split
+        · exact Frame.refl _
+        · rename_i s1 ip hg
+          split
+          · exact (getParamCore_frames hg).1
+          · split <;> exact (getParamCore_frames hg).1
   | .raise, s => by simp only [step]; exact Frame.refl _
   | .block i body, s => by
     simp only [step]
@@ -656,6 +714,22 @@ theorem const_step : ∀ (op : Op) (s : St), op.noFlag = true → ConstFrame s (
     · exact ConstFrame.refl _
     · rename_i s1 ip hg
       exact (getParamCore_frames hg).2.1
+  | .setName i v, s, _ => by simp only [step]; exact (rename_frames s i v 0).2.2.2.1
+  | .genName i, s, _ => by
+    obtain ⟨k, hk⟩ := genName_state s i
+    rw [hk]; exact (rename_frames s i _ k).2.1
+  | .failingEntry i n, s, _ => by
+    simp only [step]
+    split
+    · exact ConstFrame.refl _
+    · split
+      · exact ConstFrame.refl _
+      · split
+        · exact ConstFrame.refl _
+        · rename_i s1 ip hg
+          split
+          · exact (getParamCore_frames hg).2.1
+          · split <;> exact (getParamCore_frames hg).2.1
   | .raise, s, _ => by simp only [step]; exact ConstFrame.refl _
   | .block i body, s, h => by
     simp only [step]
@@ -956,6 +1030,14 @@ theorem applyKeys_gov (i : IId) (kvs : List (Name × Obj)) {s : St} (hwf : WF s)
             exact h0.2.2 j m hc
           all_goals exact h0
 
+theorem rename_wf {s : St} (hwf : WF s) (i : IId) (v : Obj) (k : Obj) :
+    WF { (renameCore s i v).1 with nextObj := k } := by
+  rcases renameCore_cases s i v with h | ⟨x, hx, h⟩
+  · rw [h]; exact WF.of_same (s := s) rfl rfl (Nat.le_refl _) hwf
+  · rw [h]
+    exact WF.of_same (s := setInst s i { x with values := aset x.values "name" v }) rfl rfl (Nat.le_refl _)
+      (setInst_values_gov hwf hx _).1
+
 /-! ### Well-formedness is preserved by every statement -/
 
 theorem clsDict_set {s : St} {c : CId} {k k' : Cls} (hk : s.classes[c]? = some k) (h' : List Param) (c' : CId) :
@@ -985,6 +1067,8 @@ theorem wf_clsSet {s : St} (hwf : WF s) (c : CId) (n : Name) (v : Obj) : WF (ste
   · rename_i p owner hd
     split
     · rename_i q k hq hk
+      split
+      · exact hwf
       split
       · exact hwf
       · by_cases e : owner = c
@@ -1078,6 +1162,24 @@ theorem wf_step : ∀ (op : Op) (s : St), WF s → WF (step s op).1
     · exact h
     · rename_i s1 ip hg
       exact (getParamCore_gov h hg).1
+  | .setName i v, s, h => by
+    simp only [step]
+    exact rename_wf h i v (renameCore s i v).1.nextObj
+  | .genName i, s, h => by
+    obtain ⟨k, hk⟩ := genName_state s i
+    rw [hk]; exact rename_wf h i _ k
+  | .failingEntry i n, s, h => by
+    simp only [step]
+    split
+    · exact h
+    · split
+      · exact h
+      · split
+        · exact h
+        · rename_i s1 ip hg
+          split
+          · exact (getParamCore_gov h hg).1
+          · split <;> exact (getParamCore_gov h hg).1
   | .raise, s, h => by simp only [step]; exact h
   | .block i body, s, h => by
     simp only [step]
@@ -1178,43 +1280,48 @@ theorem applyKw_keeps (s : St) (c : CId) (kw : List (Name × Obj)) (vals vals' :
       · cases h
       · split at h
         · cases h
-        · exact ih _ h (aget_aset_isSome _ _ _ _ hv)
+        · split at h
+          · cases h
+          · exact ih _ h (aget_aset_isSome _ _ _ _ hv)
 
-/-- src: _setup_params keyword loop: a keyword naming a read-only Parameter is refused -/
+/-- src: _setup_params keyword loop: a keyword naming a read-only Parameter is refused (unless an
+earlier keyword already failed: unknown → TypeError, invalid → ValueError) -/
 theorem applyKw_readonly {s : St} (hwf : WF s) (c : CId) (kw : List (Name × Obj)) (vals : List (Name × Obj))
     (h : ∃ nv ∈ kw, ∃ p o q, descriptor s c nv.1 = some (p, o) ∧ s.heap[p]? = some q ∧ q.readonly = true) :
-    applyKw s c kw vals = .error .typeError := by
+    applyKw s c kw vals = .error .typeError ∨ applyKw s c kw vals = .error .valueError := by
   induction kw generalizing vals with
   | nil => obtain ⟨_, hm, _⟩ := h; cases hm
   | cons kv kw ih =>
     obtain ⟨k, v⟩ := kv
     simp only [applyKw]
     split
-    · rfl
+    · exact Or.inl rfl
     · rename_i p o hd
       have hlt := hwf.desc hd
       split
       · rename_i hn; rw [List.getElem?_eq_none_iff] at hn; exact absurd hlt (Nat.not_lt.2 hn)
       · rename_i q hq
         split
-        · rfl
-        · rename_i hr
-          apply ih
-          obtain ⟨nv, hm, p', o', q', hd', hq', hr'⟩ := h
-          rcases List.mem_cons.1 hm with e | hm'
-          · subst e
-            simp only at hd'
-            rw [hd] at hd'; cases hd'
-            rw [hq] at hq'; cases hq'
-            exact absurd hr' hr
-          · exact ⟨nv, hm', p', o', q', hd', hq', hr'⟩
+        · exact Or.inr rfl
+        · split
+          · exact Or.inl rfl
+          · rename_i hr
+            apply ih
+            obtain ⟨nv, hm, p', o', q', hd', hq', hr'⟩ := h
+            rcases List.mem_cons.1 hm with e | hm'
+            · subst e
+              simp only at hd'
+              rw [hd] at hd'; cases hd'
+              rw [hq] at hq'; cases hq'
+              exact absurd hr' hr
+            · exact ⟨nv, hm', p', o', q', hd', hq', hr'⟩
 
 theorem guardedStore_forbidden {s : St} {i : IId} {x : Inst} {n : Name} {ip : PId} {v : Obj} {q : Param}
-    (hq : s.heap[ip]? = some q)
+    (hq : s.heap[ip]? = some q) (hval : rejects s q v = false)
     (h : q.readonly = true ∨ (q.constant = true ∧ v ≠ guardOld x n q)) :
     guardedStore s i x n ip v = (s, .typeError) := by
   unfold guardedStore
-  simp only [hq]
+  simp only [hq, hval, Bool.false_eq_true, if_false]
   rcases h with hr | ⟨hc, hv⟩
   · simp [hr]
   · by_cases hr : q.readonly = true
@@ -1223,6 +1330,13 @@ theorem guardedStore_forbidden {s : St} {i : IId} {x : Inst} {n : Name} {ip : PI
       simp only [hc, hr', Bool.or_false, if_true, Bool.false_eq_true, if_false]
       rw [if_neg hv]
 
+/-- validation comes before the guard: an invalid value raises ValueError whatever the flags -/
+theorem guardedStore_invalid {s : St} {i : IId} {x : Inst} {n : Name} {ip : PId} {v : Obj} {q : Param}
+    (hq : s.heap[ip]? = some q) (hval : rejects s q v = true) :
+    guardedStore s i x n ip v = (s, .valueError) := by
+  unfold guardedStore
+  simp only [hq, hval, if_true]
+
 theorem clsSet_insts (s : St) (c : CId) (n : Name) (v : Obj) : (step s (.clsSet c n v)).1.insts = s.insts := by
   simp only [step]
   split
@@ -1230,8 +1344,8 @@ theorem clsSet_insts (s : St) (c : CId) (n : Name) (v : Obj) : (step s (.clsSet 
   · split
     · rename_i p owner _ _ _ q k _ _
       by_cases e : owner = c
-      · simp only [e, if_true]; split <;> rfl
-      · simp only [e, if_false]; split <;> rfl
+      · simp only [e, if_true]; split <;> (try split) <;> rfl
+      · simp only [e, if_false]; split <;> (try split) <;> rfl
     · rfl
 
 /-! ### Class-level assignment with copy-on-write, under single inheritance -/
@@ -1265,6 +1379,31 @@ theorem gov_of_flags {s s' : St} (hi : s'.insts = s.insts) (hc : s'.classes = s.
   · intro c m
     unfold clsFlags
     rw [hfo, descriptor_of_classes hc]
+
+/-- the library's renaming touches nothing but the stored `name` of that instance -/
+theorem rename_gov {s : St} (hwf : WF s) (i : IId) (v : Obj) (k : Obj) :
+    WF { (renameCore s i v).1 with nextObj := k } ∧
+    (∀ j m, govFlags { (renameCore s i v).1 with nextObj := k } j m = govFlags s j m) ∧
+    (∀ j m, m ≠ "name" → stored { (renameCore s i v).1 with nextObj := k } j m = stored s j m) := by
+  have key : ∀ t : St, WF t → (∀ j m, govFlags t j m = govFlags s j m) →
+      (∀ j m, m ≠ "name" → stored t j m = stored s j m) →
+      WF { t with nextObj := k } ∧ (∀ j m, govFlags { t with nextObj := k } j m = govFlags s j m) ∧
+      (∀ j m, m ≠ "name" → stored { t with nextObj := k } j m = stored s j m) := by
+    intro t wt gt st
+    have g := gov_of_flags (s := t) (s' := { t with nextObj := k }) rfl rfl (fun _ => rfl)
+    exact ⟨WF.of_same (s := t) rfl rfl (Nat.le_refl _) wt, fun j m => (g.1 j m).trans (gt j m),
+      fun j m hm => (stored_of_insts (s := t) (s' := { t with nextObj := k }) rfl m).trans (st j m hm)⟩
+  rcases renameCore_cases s i v with h | ⟨x, hx, h⟩
+  · rw [h]; exact key s hwf (fun _ _ => rfl) (fun _ _ _ => rfl)
+  · rw [h]
+    obtain ⟨w, g, st⟩ := setInst_values_gov hwf hx (aset x.values "name" v)
+    refine key _ w g ?_
+    intro j m hm
+    rw [st]
+    by_cases e : j = i
+    · rw [if_pos e, e, aget_aset_ne _ _ (Ne.symm hm)]
+      unfold stored; rw [hx]
+    · rw [if_neg e]
 
 /-- the state right after the metaclass installed the copy: only `c.__dict__[n]` is new -/
 structure CowStep (s s' : St) (c : CId) (n : Name) (q : Param) : Prop where
@@ -1359,6 +1498,8 @@ theorem clsSet_gov {s : St} (hwf : WF s) (hh : Hier s) (c : CId) (n : Name) (v :
     split
     · rename_i q k hq hk
       have hplt : p < s.heap.length := (List.getElem?_eq_some_iff.1 hq).1
+      split
+      · exact ⟨fun _ _ _ => rfl, fun _ _ => rfl, hh⟩
       split
       · exact ⟨fun _ _ _ => rfl, fun _ _ => rfl, hh⟩
       · by_cases e : owner = c
@@ -1464,6 +1605,11 @@ theorem step_classes (s : St) (op : Op) (h1 : op.isBlock = false)
     split
     · rfl
     · rename_i s1 ip hg; exact (getParamCore_frames hg).2.2
+  | setName i v => simp only [step]; exact (rename_frames s i v 0).2.2.2.2
+  | genName i =>
+    obtain ⟨k, hk⟩ := genName_state s i
+    rw [hk]; exact (rename_frames s i _ k).2.2.2.2
+  | failingEntry i n => simp [Op.isBlock] at h1
   | raise => rfl
   | block i body => simp [Op.isBlock] at h1
 
